@@ -167,7 +167,7 @@ def mc(cfgs: List[Dict[str, Any]], outcomes: List[str], max_now: int, allowed: L
         path = os.path.join(scratch, "cfgs.json")
         with open(path, "w") as f:
             json.dump([tla_view(normalize(c)) for c in cfgs], f)
-        inv = invariants or ["NoViolation", "SlotConservation", "QueueBound", "TypeOK", "NoStuckMessage"]
+        inv = invariants or ["NoViolation", "SlotConservation", "QueueBound", "TypeOK", "NoStuckMessage", "PromptReturn", "TimeoutReturn"]
         text = f"""SPECIFICATION {'FairSpec' if fair else 'Spec'}
 CONSTANTS
   LookaheadAfterLimit = {_b(sw['LookaheadAfterLimit'])}
